@@ -50,7 +50,7 @@ inline expr bounded_by(const RefSet& A, const std::vector<expr>& e, const expr& 
 // ---- symbolic elements -----------------------------------------------------------------------
 // shape-expressible constraint:  s1*x_i + s2*x_j <= b   (kind: box uses j == i only; BD uses s2 = -s1)
 enum Family { BOX = 0, BDS = 1, OCT = 2 };
-struct SymShapeRow { unsigned i, j; int s1, s2; mpz_class b; bool strict; };
+struct SymShapeRow { unsigned i, j; int s1, s2; mpz_class b; bool strict; bool eq; };
 template <typename D> struct Traits;
 template <typename T> struct Traits<BD_Shape<T> > { static const Family fam = BDS; };
 template <typename T> struct Traits<Octagonal_Shape<T> > { static const Family fam = OCT; };
@@ -59,7 +59,7 @@ template <typename D> struct Open_OK { static const bool value = false; };
 template <> struct Open_OK<Rational_Box> { static const bool value = true; };
 
 inline SymShapeRow sym_shape_row(const std::string& pfx, unsigned n, Family fam, long Bb, bool allow_strict) {
-  SymShapeRow r; r.strict = false;
+  SymShapeRow r; r.strict = false; r.eq = false;
   r.i = symrt::choose(pfx + "i", n);
   r.s1 = symrt::flag(pfx + "s1") ? -1 : 1;
   if (fam == BOX || n == 1) { r.j = r.i; r.s2 = 0; }
@@ -72,22 +72,28 @@ inline SymShapeRow sym_shape_row(const std::string& pfx, unsigned n, Family fam,
   }
   r.b = symrt::input(pfx + "b", -Bb, Bb);
   if (allow_strict) r.strict = symrt::flag(pfx + "strict");
+  if (!r.strict && symrt::param("eqs", 1)) r.eq = symrt::flag(pfx + "eq");
   return r;
 }
 inline Constraint shape_constraint(const SymShapeRow& r) {
   Linear_Expression e = r.s1 * Variable(r.i); if (r.s2 != 0) e += r.s2 * Variable(r.j);
+  if (r.eq) return Constraint(e == r.b);
   return r.strict ? Constraint(e < r.b) : Constraint(e <= r.b);
 }
 inline void ref_add_shape(RefSet& R, const SymShapeRow& r) {
   std::vector<expr> a(R.n, ival(0)); a[r.i] = ival(-r.s1); if (r.s2 != 0) a[r.j] = ival(-r.s2);
-  R.add(a, term(r.b), r.strict ? 2 : 1);     //  b - s1 x_i - s2 x_j >= 0
+  R.add(a, term(r.b), r.eq ? 0 : r.strict ? 2 : 1);     //  b - s1 x_i - s2 x_j >= 0  (or == 0)
 }
 template <typename D>
 struct SymElem { std::unique_ptr<D> d; RefSet R; SymElem(unsigned n) : R(n) {} };
 template <typename D>
 SymElem<D> make_elem(const std::string& pfx, unsigned n, unsigned m, long Bb, bool strict_ok, bool touch) {
   SymElem<D> e(n); e.d.reset(new D(n));
-  for (unsigned k = 0; k < m; ++k) { SymShapeRow r = sym_shape_row(S(pfx, k), n, Traits<D>::fam, Bb, strict_ok && Open_OK<D>::value); e.d->add_constraint(shape_constraint(r)); ref_add_shape(e.R, r); }
+  for (unsigned k = 0; k < m; ++k) {
+    SymShapeRow r = sym_shape_row(S(pfx, k), n, Traits<D>::fam, Bb, strict_ok && Open_OK<D>::value); e.d->add_constraint(shape_constraint(r)); ref_add_shape(e.R, r);
+    // observers between additions: the next constraint is added to a closed / reduced / known non-empty element
+    if (touch && k + 1 < m) { int t = symrt::choose(pfx + S("mid", k), 3); if (t == 1) (void) e.d->is_empty(); else if (t == 2) (void) e.d->minimized_constraints(); }
+  }
   if (touch) { int t = symrt::choose(pfx + "touch", 3); if (t == 1) (void) e.d->is_empty(); else if (t == 2) (void) e.d->minimized_constraints(); }
   return e;
 }
